@@ -249,6 +249,28 @@ Proof.
     + exact W.
 Qed.
 
+(* the exporter state an event starts from is the world's, and what it leaves *)
+Lemma gstep_exp fx w e :
+  match snd (gstep fx w e) with
+  | OSent st s t x => st = w_exp w /\ w_exp (fst (gstep fx w e)) = r_st x
+  | ORefresh st t r => st = w_exp w /\
+                       w_exp (fst (gstep fx w e)) = match r with Ok xs => last_state st xs | _ => st end
+  | OReconn st q => st = w_exp w /\ w_exp (fst (gstep fx w e)) = mkExp (x_obs st) (u32 q) [] (x_udp st)
+  end.
+Proof.
+  destruct e as [obj ops t|t|q]; cbn [gstep].
+  - set (p := match obj with
+              | None => (with_objs w (w_objs w ++ [new_oset]), length (w_objs w))
+              | Some k => (w, k) end).
+    assert (E1 : w_exp (fst p) = w_exp w) by (unfold p; destruct obj; reflexivity).
+    destruct p as [w1 k]. cbn [fst snd] in *.
+    assert (E2 : forall l w1, w_exp (fold_left (fun w g => apply_gop w k g) l w1) = w_exp w1).
+    { induction l as [|g l IHl]; intros w0; cbn [fold_left]; [reflexivity|]. now rewrite IHl, apply_gop_exp. }
+    rewrite E2, E1. split; reflexivity.
+  - cbn [fst snd]. split; reflexivity.
+  - cbn [fst snd]. split; reflexivity.
+Qed.
+
 Theorem grun_inv h : forall w, WInv w -> Forall (out_ok cur) (grun cur w h).
 Proof.
   induction h as [|e r IH]; intros w H; cbn [grun]; [constructor|].
